@@ -1,9 +1,187 @@
-/- stub: transcription of rrul_fill_Wly pending -/
+/-
+  Model of `rrul_fill_wly` (src/evrrul.c:1442-1643, FREQ=WEEKLY) with `pos_match_p` (1420-1436) and
+  `WLY_DLY_MAX_YEAR` (1440).  Hand transcription, loop by loop; C `unsigned int` arithmetic that can wrap is written
+  with explicit `% u32`.  Calendar: `echs_scale_ndim(SCALE_GREGORIAN, y, m)` = `__ndim_greg` = `getNdom`,
+  `echs_scale_wday(SCALE_GREGORIAN, …)` = `__wday_greg` = `ymdGetWday` (same tables, same formulas).
+  Tied to the C code by tools/rrfillprobe.py (vlib/p_rrfill.py).
+
+  Every C loop is a recursive function with a `fuel` argument; a loop that runs out of fuel yields `none`
+  ("not modelled"), never a wrong list.  Results are accumulated in reverse (`res`, newest first), so the
+  C variable `res` is `res.length`.
+-/
 import Echse.Model.RrBase
 namespace Echse.Rrule
 open Echse.Instant
 
-/-- `none` = not modelled yet -/
-def fillWly (_r : Rule) (_proto : Inst) (_nti : Nat) : Option (List Inst) := none
+/-- `WLY_DLY_MAX_YEAR` -/
+def wlyDlyMaxYear : Nat := 2099
+
+/-- `pos_match_p(poss, i, n)` (1420-1436): is `i` or `i - n - 1` in BYSETPOS (`size_t` arithmetic, no wrap for
+the small values that occur) -/
+def posMatchP (poss : List Int) (i n : Nat) : Bool :=
+  poss.any fun pos => (pos > 0 && pos.toNat == i) || (pos < 0 && (-pos).toNat + i == n + 1)
+
+/-- the ENUM_INIT / ENUM_COND / ENUM_ITER loop (90-98) with its index variables: `((iH, iM, iS), (e.H[iH], e.M[iM], e.S[iS]))`
+in visiting order (hours outermost); the value part is `Enum.times` -/
+def Enum.timesIx (e : Enum) : List ((Nat × Nat × Nat) × (Nat × Nat × Nat)) :=
+  e.H.zipIdx.flatMap fun (h, iH) => e.M.zipIdx.flatMap fun (m, iM) => e.S.zipIdx.map fun (s, iS) => ((iH, iM, iS), (h, m, s))
+
+/-- the month carry that occurs three times (1540-1551, 1581-1593, 1746-1757):
+`while (d > maxd) { if (!maxd) goto fin; d -= maxd; if (++m > 12U) { y++; m = 1U; } maxd = echs_scale_ndim(srcsca, y, m); }`
+Result: `none` out of fuel, `some none` = `goto fin`, `some (some (y, m, d, maxd))` the state after the loop.
+Fuel: a round needs `d > maxd ≥ 1` and lowers `d` by at least 1, so `d + 1` rounds suffice (callers pass `d + 1`). -/
+def carryMon : Nat → Nat → Nat → Nat → Nat → Option (Option (Nat × Nat × Nat × Nat))
+  | 0, _, _, _, _ => none
+  | fuel+1, y, m, d, maxd =>
+    if d > maxd then
+      if maxd = 0 then some none
+      else
+        let d := d - maxd
+        let (y, m) := if m + 1 > 12 then ((y + 1) % u32, 1) else (y, m + 1)
+        carryMon fuel y m d (getNdom y m)
+    else some (some (y, m, d, maxd))
+
+/-- 1476-1487: the weekday mask of the weekly filler; counted weekdays (nMO …, negative ones arrive as huge unsigned
+values) are ignored -/
+def wlyWdMask (dow : List Int) : Nat :=
+  dow.foldl (fun (m : Nat) (t : Int) => if 1 ≤ t ∧ t ≤ 7 then m ||| ((1 <<< t.toNat) % 256) else m) 0
+
+/-- 1489-1501 (and 1705-1716): the month mask, `m_mask |= 1U << tmp`; all months when nothing is set -/
+def monMask (mon : List Nat) : Nat :=
+  let mm := mon.foldl (fun (m : Nat) (t : Nat) => m ||| ((1 <<< t) % u32)) 0
+  if mm = 0 then 0b1111111111110 else mm
+
+/-- 1526-1533: `for (i = 0, j = 0; wd_mask; wd_mask >>= 1U, i++) if (wd_mask & 1) { wd_incs |= (i & 15) << j; i = 0; j += 4; }`
+(`i = 0` followed by the loop's `i++` gives 1).  Fuel: `wd_mask < 128` is halved every round, 8 rounds suffice. -/
+def wdIncsLoop : Nat → Nat → Nat → Nat → Nat → Nat
+  | 0, _, _, _, incs => incs
+  | fuel+1, wdMask, i, j, incs =>
+    if wdMask = 0 then incs
+    else if wdMask % 2 = 1 then wdIncsLoop fuel (wdMask / 2) 1 (j + 4) (incs ||| (((i % 16) <<< j) % u32))
+    else wdIncsLoop fuel (wdMask / 2) (i + 1) j incs
+
+/-- what the loops of one call share -/
+structure WlyCtx where
+  r : Rule
+  proto : Inst
+  nti : Nat
+  e : Enum
+  mMask : Nat
+  wdIncs : Nat
+  posp : Bool
+
+/-- 1568-1573: `do { k += incs & 15; if (m_mask & (1U << (d + k > maxd ? nxt_m : m))) nset++; } while ((incs >>= 4U));`
+Fuel: `incs < 16^7` (at most seven weekdays), 8 rounds suffice. -/
+def nsetLoop (c : WlyCtx) (m d maxd nxtM : Nat) : Nat → Nat → Nat → Nat → Nat
+  | 0, _, _, nset => nset
+  | fuel+1, incs, k, nset =>
+    let k := (k + incs % 16) % u32
+    let nset := if bit c.mMask (if (d + k) % u32 > maxd then nxtM else m) then nset + 1 else nset
+    let incs := incs / 16
+    if incs ≠ 0 then nsetLoop c m d maxd nxtM fuel incs k nset else nset
+
+/-- 1602-1637: the ENUM loop of one day `this_y-this_m-this_d`; result `(res, fin)`, `fin` = `goto fin` was taken.
+`break` and `res ≥ nti` end the loop without `fin`.  Recursion over the (finite) list of time triples. -/
+def wlyEnum (c : WlyCtx) (nset nday ty tm td : Nat) :
+    List ((Nat × Nat × Nat) × (Nat × Nat × Nat)) → List Inst → List Inst × Bool
+  | [], res => (res, false)
+  | ((iH, iM, iS), (h, mi, s)) :: rest, res =>
+    if ¬ res.length < c.nti then (res, false) else
+    let x := mkInst ty tm td h mi s c.proto.ms
+    if ltP x c.proto then wlyEnum c nset nday ty tm td rest res            -- continue
+    else if ltP c.r.untl x then (res, true)                                  -- goto fin
+    else if !bit c.mMask tm then (res, false)                                -- break
+    else if c.posp && !posMatchP c.r.pos
+        ((((nday - 1) * c.e.H.length + iH) * c.e.M.length + iM) * c.e.S.length + iS + 1) nset then
+      wlyEnum c nset nday ty tm td rest res                                  -- continue (here nday ≥ 1: the month is in m_mask)
+    else
+      -- echs_instant_attach_scale(x, GREGORIAN): the top four bits of y are cleared
+      wlyEnum c nset nday ty tm td rest ({ x with y := x.y % 4096 } :: res)
+
+/-- 1578-1638: `do { this_d += incs & 15; <month carry>; <year stop>; nday; <ENUM loop> } while ((incs >>= 4U) && res < nti);`
+Result `(res, fin)`; `none` out of fuel.  Fuel: `incs < 16^7`, 8 rounds suffice. -/
+def wlyWeek (c : WlyCtx) (nset : Nat) : Nat → Nat → Nat → Nat → Nat → Nat → Nat → List Inst → Option (List Inst × Bool)
+  | 0, _, _, _, _, _, _, _ => none
+  | fuel+1, incs, ty, tm, td, tmaxd, nday, res =>
+    let td := (td + incs % 16) % u32
+    match carryMon (td + 1) ty tm td tmaxd with
+    | none => none
+    | some none => some (res, true)                                          -- beyond the scale's range
+    | some (some (ty, tm, td, tmaxd)) =>
+      if ty > wlyDlyMaxYear then some (res, true) else                       -- nothing's going to match anymore
+      let nday := if bit c.mMask tm then nday + 1 else nday
+      let (res, fin) := wlyEnum c nset nday ty tm td c.e.timesIx res
+      if fin then some (res, true) else
+      let incs := incs / 16
+      if incs ≠ 0 ∧ res.length < c.nti then wlyWeek c nset fuel incs ty tm td tmaxd nday res
+      else some (res, false)
+
+/-- 1537-1639: the outer `for (res = 0, maxd = ndim(y, m); res < nti; ({ d += rr->inter * 7U; <month carry> }))` loop over
+the weeks.  `none` out of fuel. -/
+def wlyLoop (c : WlyCtx) : Nat → Nat → Nat → Nat → Nat → List Inst → Option (List Inst)
+  | 0, _, _, _, _, _ => none
+  | fuel+1, y, m, d, maxd, res =>
+    if ¬ res.length < c.nti then some res else
+    -- 1563-1576: BYSETPOS needs the number of instances in this week
+    let nset :=
+      if c.posp then
+        let nxtM := m % 12 + 1
+        nsetLoop c m d maxd nxtM 8 c.wdIncs 0 0 * (c.e.H.length * c.e.M.length * c.e.S.length)
+      else 0
+    match wlyWeek c nset 8 c.wdIncs y m d maxd 0 res with
+    | none => none
+    | some (res, true) => some res
+    | some (res, false) =>
+      -- the loop's increment expression
+      let d := (d + (c.r.inter % u32 * 7) % u32) % u32
+      match carryMon (d + 1) y m d maxd with
+      | none => none
+      | some none => some res
+      | some (some (y, m, d, maxd)) => wlyLoop c fuel y m d maxd res
+
+/-- fuel of the outer loops of the weekly and the daily filler, for a loop entered at year `y`.
+With `k = rr->inter * 7U` (weekly) or `rr->inter` (daily), `k ≠ 0` as an `unsigned int`: as long as `d + k` does not wrap,
+the candidate date moves forward by `k ≥ 1` days per round (the month carry keeps the day number), the year never
+decreases, and a round entered with `y > 2099` leaves the loop; so there are at most `(2100 - y) * 366 + 1` such rounds.
+`d + k` can wrap only for `k ≥ 2^32 - 31` (`d ≤ 31` at the loop head); then `d` shrinks by at least 1 per round, after at
+most 31 rounds the sum no longer wraps, `d` becomes ≥ 2^32 - 31 days, the year is far beyond 2099 and the next round leaves.
+`k = 0` (INTERVAL a multiple of 2^32): all rounds see the same date; either each yields an instant (≤ nti rounds) or the
+C loop never ends — the model then runs out of fuel and says `none`. -/
+def wlyDlyFuel (y nti : Nat) : Nat := (2100 - y) * 366 + nti + 100
+
+/-- `rrul_fill_wly(tgt, nti, rr)` with `*tgt = proto`, SCALE=GREGORIAN -/
+def fillWly (r : Rule) (proto : Inst) (nti : Nat) : Option (List Inst) :=
+  -- echs_instant_rescale: only a proto without scale bits on a GREGORIAN rule is left as it is
+  if r.scale ≠ 0 ∨ proto.y ≥ 4096 then none else
+  let y := proto.y
+  let m := proto.m
+  let d := proto.d
+  let posp := !r.pos.isEmpty
+  -- 1462-1466
+  match capNti r nti with
+  | none => some []
+  | some nti =>
+  -- 1468-1471
+  if m = 0 ∨ m > 12 ∨ d = 0 ∨ d > 31 then some [] else
+  let e := makeEnum proto r
+  let wdMask := wlyWdMask r.dow
+  let mMask := monMask r.mon
+  -- 1503-1534: zap to the monday of DTSTART's week; `some none` = `goto fin`
+  let start : Option (Nat × Nat × Nat × Nat) :=
+    if wdMask ≠ 0 then
+      let w := ymdGetWday y m d
+      let zap : Option (Nat × Nat × Nat) :=
+        if d ≤ w - 1 then
+          let (y, m) := if m - 1 = 0 then ((y + u32 - 1) % u32, 12) else (y, m - 1)
+          let d := d + getNdom y m
+          if d ≤ w - 1 then none else some (y, m, d)
+        else some (y, m, d)
+      zap.map fun (y, m, d) => (y, m, d - (w - 1), wdIncsLoop 8 (wdMask / 2) 0 0 0)
+    else some (y, m, d, 0)
+  match start with
+  | none => some []
+  | some (y, m, d, wdIncs) =>
+    let c : WlyCtx := { r, proto, nti, e, mMask, wdIncs, posp }
+    (wlyLoop c (wlyDlyFuel y nti) y m d (getNdom y m) []).map List.reverse
 
 end Echse.Rrule
